@@ -438,6 +438,113 @@ def rule_r5(chk, p, t):
         r.guard(m.qualname, calls)
 
 
+def rule_r6(chk, p, t):
+    r = chk.rule(
+        "C03.R6",
+        "a segment of the batched propagation that contains no requested time",
+        1,
+        "solve_ivp(..., t_eval=times) returns `t` and `y` as EMPTY LISTS (not arrays) when no requested time lies in the "
+        "integrated span - which is what happens in propagateBulk when an event stops the integration before the next "
+        "requested time (two events between two consecutive output times).  The batched call must then behave like the "
+        "same propagation in separate calls: the solution's `y` may not be used as an array (`.reshape`, `[..., k]`) "
+        "without a conversion (array / asarray / atleast_2d) or a non-emptiness guard, and `solution.t[-1]` may only be "
+        "read where a requested time certainly lies in the span - in the branch where no event fired (the integration "
+        "reached the last requested time) or under a guard on the number of returned times",
+        "the values; scipy's behaviour is taken from its documented source (solve_ivp: `elif ts:` before hstack)",
+    )
+    from rsa.cfg import cfg_of
+    from rsa.util import parents_map
+
+    cel = p.cls(CEL)
+    m = cel.methods.get("propagateBulk")
+
+    def one():
+        calls = [c for c in walk_no_nested(m.node) if isinstance(c, ast.Call) and call_name(c) == "solve_ivp"]
+        require(len(calls) == 1, "propagateBulk does not call solve_ivp once", m.node)
+        if not any(k.arg == "t_eval" for k in calls[0].keywords):
+            r.ok(m.qualname, "no t_eval: t / y are always arrays", m.loc(calls[0]))
+            return
+        pm = parents_map(m.node)
+        cfg = cfg_of(m)
+        teval = unparse(next(k.value for k in calls[0].keywords if k.arg == "t_eval"))
+        # names bound to the solution and to its y / t, the count of returned times
+        sol = None
+        for n in walk_no_nested(m.node):
+            if isinstance(n, ast.Assign) and n.value is calls[0] and isinstance(n.targets[0], ast.Name):
+                sol = n.targets[0].id
+        require(sol is not None, "the solution of solve_ivp is not bound to a name", calls[0])
+        raw_y = {f"{sol}.y"}
+        counts = set()
+        for n in walk_no_nested(m.node):
+            if isinstance(n, ast.Assign) and len(n.targets) == 1 and isinstance(n.targets[0], ast.Name):
+                if unparse(n.value) == f"{sol}.y":
+                    raw_y.add(n.targets[0].id)
+                if unparse(n.value) in (f"len({sol}.t)", f"{sol}.t.size", f"len({sol}.y)"):
+                    counts.add(n.targets[0].id)
+        SAFE = {"array", "asarray", "atleast_2d", "atleast_1d", "asanyarray"}
+        bad = []
+        n_sites = 0
+
+        def guarded(node_ast):
+            """dominated by a condition on the number of returned times, or by `no event fired`"""
+            nd = cfg.node_of(node_ast)
+            if nd is None:
+                return False
+            for cid, lab in cfg.control_conditions(nd.id):
+                c = cfg.nodes[cid]
+                if c.kind != "cond":
+                    continue
+                txt = unparse(c.ast)
+                if any(f"{k} > 0" == txt or f"{k} >= 1" == txt or f"{k}" == txt for k in counts | {f"len({sol}.t)", f"{sol}.t.size"}) and lab is True:
+                    return True
+                if any(txt == f"{k} == 0" for k in counts | {f"len({sol}.t)"}) and lab is False:
+                    return True
+                # `len(times) == 0`: no requested time is left at all - not reachable inside the loop, whose condition
+                # current_time < times[-1] needs a remaining requested time (the last one is consumed only when the
+                # integration reaches it, which ends the loop)
+                if lab is True and isinstance(c.ast, ast.Compare) and len(c.ast.ops) == 1 and isinstance(c.ast.ops[0], ast.Eq) and unparse(c.ast.left) == f"len({teval})" and unparse(c.ast.comparators[0]) == "0":
+                    return True
+                # `if not fired:` - no event reported: the integration ran to the last requested time
+                if isinstance(c.ast, ast.Name) and lab is False and any(
+                    isinstance(a, ast.Assign) and len(a.targets) == 1 and isinstance(a.targets[0], ast.Name) and a.targets[0].id == c.ast.id and ("t_events" in unparse(a.value))
+                    for a in walk_no_nested(m.node)
+                ):
+                    return True
+            return False
+
+        for n in walk_no_nested(m.node):
+            # (a) array use of the raw y
+            if isinstance(n, (ast.Name, ast.Attribute)) and isinstance(getattr(n, "ctx", None), ast.Load) and unparse(n) in raw_y:
+                par = pm.get(n)
+                if isinstance(par, ast.Attribute) and par.value is n and par.attr in ("reshape", "copy", "T", "shape", "ravel", "flatten"):
+                    n_sites += 1
+                    if not guarded(n):
+                        bad.append(f"`{unparse(par)}` at line {n.lineno}: `{sol}.y` is an empty list when the segment contains no requested time")
+                elif isinstance(par, ast.Subscript) and par.value is n and isinstance(par.slice, ast.Tuple):
+                    n_sites += 1
+                    if not guarded(n):
+                        bad.append(f"`{unparse(par)}` at line {n.lineno}: array indexing of `{sol}.y`, an empty list when the segment contains no requested time")
+                elif isinstance(par, ast.Call) and call_name(par) in SAFE:
+                    n_sites += 1
+            # (b) last returned time
+            if isinstance(n, ast.Subscript) and unparse(n.value) == f"{sol}.t" and isinstance(n.ctx, ast.Load):
+                n_sites += 1
+                if not guarded(n):
+                    bad.append(f"`{unparse(n)}` at line {n.lineno}: `{sol}.t` is empty when an event stops the integration before the next requested time")
+        if bad:
+            r.violation(
+                m.qualname,
+                "empty-segment:" + ";".join(sorted(set(b.split(" at line")[0] for b in bad))),
+                "propagateBulk fails when two events fall between two consecutive requested times (the second segment returns no requested time), where the same propagation in separate calls succeeds: " + "; ".join(bad),
+                m.loc(),
+            )
+        else:
+            require(n_sites >= 1, "no use of the solution's t / y found", m.node)
+            r.ok(m.qualname, f"{n_sites} uses of the solution's t / y are list-safe or guarded", m.loc())
+
+    r.guard(m.qualname, one)
+
+
 def run(chk, p, t):
     chk.explanation = (
         "Static decision of a deliberately narrow set of structural necessary conditions of C03: (R1) the strided "
@@ -448,7 +555,7 @@ def run(chk, p, t):
         "tolerance, Kepler exactness, energy / momentum conservation (integrator numerics)."
     )
     chk.assumptions += ["numpy ravel / reshape are row-major: element (i, k) of a (6, K) array is at index i K + k"]
-    for fn in (rule_r1, rule_r2, rule_r3, rule_r4, rule_r5):
+    for fn in (rule_r1, rule_r2, rule_r3, rule_r4, rule_r5, rule_r6):
         rid = "C03.R" + fn.__name__[-1]
         if not chk.wants(rid):
             continue
